@@ -89,6 +89,68 @@ fn ki8_reset_equals_fresh() {
     core::mem::forget(b);
 }
 
+/// inflateResetKeep on its own (the entry point C16 lists, also what `inflateReset` builds on): from any state it forgets
+/// the stream — totals, message, mode, last-block and dictionary flags, header state, bit register, code tables — and keeps
+/// the window and the configuration.  Rule table transcribed from zlib-ng's inflateResetKeep.
+#[kani::proof]
+#[kani::unwind(6)]
+#[kani::stub(core::fmt::write, stub_fmt_write)]
+#[kani::stub(core::panicking::panic_nounwind, stub_pn)]
+#[kani::stub(core::panicking::panic_nounwind_fmt, stub_pnf)]
+fn ki8_reset_keep_forgets_the_stream() {
+    let mut wina = [0u8; 8 + 64];
+    let mut a = typed_state(&mut wina, 0, Mode::Head);
+    a.mode = match kani::any::<u8>() % 8 {
+        0 => Mode::Head,
+        1 => Mode::Dict,
+        2 => Mode::CopyBlock,
+        3 => Mode::Match,
+        4 => Mode::Check,
+        5 => Mode::Done,
+        6 => Mode::Bad,
+        _ => Mode::Sync,
+    };
+    let wrap: u8 = kani::any();
+    let wbits: u8 = kani::any();
+    a.wrap = wrap;
+    a.wbits = wbits;
+    a.flags = Flags(kani::any::<u8>() & 15);
+    let from_header = a.flags.contains(Flags::WBITS_FROM_HEADER);
+    a.total = kani::any();
+    a.back = kani::any();
+    a.gzip_flags = kani::any();
+    a.checksum = kani::any();
+    a.next = kani::any();
+    a.len_table = Table { codes: Codes::Len, bits: kani::any() };
+    a.dist_table = Table { codes: Codes::Dist, bits: kani::any() };
+    a.bit_reader.prime(kani::any::<u8>() % 32, kani::any());
+    let have = kani::any::<usize>() % 9;
+    unsafe { a.window.set_have(have) };
+    let mut sa = typed_stream(unsafe { &mut *(&mut a as *mut State) });
+    sa.total_in = kani::any();
+    sa.total_out = kani::any();
+    let adler0: u32 = kani::any();
+    sa.adler = adler0 as _;
+    let r = reset_keep(&mut sa);
+    assert!(r == ReturnCode::Ok);
+    let x = &sa.state;
+    assert!(sa.total_in == 0 && sa.total_out == 0 && x.total == 0 && sa.msg.is_null());
+    assert!(if wrap != 0 { sa.adler as u32 == (wrap & 1) as u32 } else { sa.adler as u32 == adler0 });
+    assert!(matches!(x.mode, Mode::Head));
+    assert!(!x.flags.contains(Flags::IS_LAST_BLOCK), "last = 0");
+    assert!(!x.flags.contains(Flags::HAVE_DICT), "havedict = 0: the next stream is asked for its dictionary again");
+    assert!(x.flags.contains(Flags::SANE));
+    assert!(x.flags.contains(Flags::WBITS_FROM_HEADER) == from_header);
+    assert!(x.gzip_flags == -1 && x.head.is_none());
+    assert!(x.bit_reader.bits_in_buffer() == 0 && x.bit_reader.hold() == 0);
+    assert!(x.next == 0 && x.back == usize::MAX);
+    assert!(matches!(x.len_table.codes, Codes::Fixed) && matches!(x.dist_table.codes, Codes::Fixed));
+    // kept: configuration and window
+    assert!(x.wrap == wrap && x.wbits == wbits && x.window.have() == have);
+    core::mem::forget(sa);
+    core::mem::forget(a);
+}
+
 /// prime / validate / undermine / mark / sync_point / codes_used / get_header: any integer arguments, documented effect
 #[kani::proof]
 #[kani::unwind(6)]
